@@ -865,6 +865,77 @@ def run_named_mpo(case):
     return {"nt": L >= 3, "cls": cls, "err": e}
 
 
+def spin_ops(S):
+    """standard spin-S matrices in the basis m = S, S-1, ..., -S"""
+    d = int(round(2 * S + 1))
+    m = np.array([S - k for k in range(d)])
+    sz = np.diag(m).astype(complex)
+    sp = np.zeros((d, d), dtype=complex)
+    for k in range(1, d):
+        sp[k - 1, k] = math.sqrt(S * (S + 1) - m[k] * (m[k] + 1))
+    sx = (sp + sp.conj().T) / 2
+    sy = (sp - sp.conj().T) / 2j
+    return sx, sy, sz
+
+
+def chain_ham(L, d, two_site, one_site, cyclic):
+    """sum_i two_site(i,i+1) + sum_i one_site(i), built with explicit krons"""
+    D = d**L
+    H = np.zeros((D, D), dtype=complex)
+    eye = np.eye(d)
+    for i in range(L):
+        H += kron_ops([one_site if k == i else eye for k in range(L)])
+    pairs = [(i, i + 1) for i in range(L - 1)] + ([(L - 1, 0)] if cyclic and L > 2 else [])
+    for (i, j) in pairs:
+        for (c, a, b) in two_site:
+            H += c * kron_ops([a if k == i else b if k == j else eye for k in range(L)])
+    return H
+
+
+@st.composite
+def s_named_ham(draw, tier):
+    S = draw(st.sampled_from([0.5, 0.5, 1.0]))
+    L = draw(st.integers(2, 6 if S == 0.5 else 4))
+    f = st.sampled_from([1.0, -1.0, 0.5, 0.0, 2.0, -0.7, 0.3])
+    return {"which": draw(st.sampled_from(["ising", "heis", "heis3", "XY", "XY2", "XXZ"])), "L": L, "S": S,
+            "cyclic": L >= 3 and draw(st.booleans()), "j": [draw(f), draw(f), draw(f)], "b": draw(f), "delta": draw(f)}
+
+
+def run_named_ham(case):
+    qtn = Q()
+    w, L, S, cyc = case["which"], case["L"], case["S"], case["cyclic"]
+    sx, sy, sz = spin_ops(S)
+    d = sx.shape[0]
+    jx, jy, jz = case["j"]
+    b = case["b"]
+    if w == "ising":
+        X = qtn.MPO_ham_ising(L, j=jx, bx=b, S=S, cyclic=cyc)
+        ref = chain_ham(L, d, [(jx, sz, sz)], -b * sx, cyc)
+    elif w == "heis":
+        X = qtn.MPO_ham_heis(L, j=jx, bz=b, S=S, cyclic=cyc)
+        ref = chain_ham(L, d, [(jx, sx, sx), (jx, sy, sy), (jx, sz, sz)], -b * sz, cyc)
+    elif w == "heis3":
+        X = qtn.MPO_ham_heis(L, j=(jx, jy, jz), bz=b, S=S, cyclic=cyc)
+        ref = chain_ham(L, d, [(jx, sx, sx), (jy, sy, sy), (jz, sz, sz)], -b * sz, cyc)
+    elif w == "XY":
+        X = qtn.MPO_ham_XY(L, j=jx, bz=b, S=S, cyclic=cyc)
+        ref = chain_ham(L, d, [(jx, sx, sx), (jx, sy, sy)], -b * sz, cyc)
+    elif w == "XY2":
+        X = qtn.MPO_ham_XY(L, j=(jx, jy), bz=b, S=S, cyclic=cyc)
+        ref = chain_ham(L, d, [(jx, sx, sx), (jy, sy, sy)], -b * sz, cyc)
+    else:
+        from quimb.tensor.tensor_builder import MPO_ham_XXZ  # (not re-exported by quimb.tensor)
+
+        X = MPO_ham_XXZ(L, case["delta"], jxy=jx, S=S, cyclic=cyc)
+        ref = chain_ham(L, d, [(jx, sx, sx), (jx, sy, sy), (case["delta"], sz, sz)], 0 * sz, cyc)
+    info = dict(which=w, cyclic=cyc, S=S)
+    if int(X.L) != L or bool(X.cyclic) != bool(cyc):
+        raise Violation("ham-structure", L=int(X.L), **info)
+    scale = max(float(np.linalg.norm(ref)), d ** (L / 2))
+    e = close(dense_op(X, list(range(L)), **info), ref, EXACT64, scale, **info)
+    return {"nt": L >= 3, "cls": ["which=" + w, f"L={L}", f"S={S}", "cyclic" if cyc else "open"], "err": e}
+
+
 # ---------------------------------------------------------------------------
 # 5. sums, differences, scalar multiples
 # ---------------------------------------------------------------------------
@@ -1314,6 +1385,14 @@ def run_ptrace(case):
     want_L = len(keep) if case["rescale"] else L
     if int(rho.L) != want_L or list(rho.gen_sites_present()) != sites:
         raise Violation("ptrace-sites", L=int(rho.L), present=list(rho.gen_sites_present()), **info)
+    # a matrix product operator: one tensor per kept site, bonds only between consecutive kept sites
+    if rho.num_tensors != len(keep):
+        raise Violation("ptrace-structure", tensors=int(rho.num_tensors), **info)
+    for ix, tids in rho.ind_map.items():
+        if len(tids) == 2:
+            pos = sorted(k for tid in tids for k, s_ in enumerate(sites) if rho.site_tag_id.format(s_) in rho.tensor_map[tid].tags)
+            if len(pos) != 2 or pos[1] - pos[0] != 1:
+                raise Violation("ptrace-structure", bond_between=pos, **info)
     ref = ptrace(ra, da["phys"], keep)
     tol = tol_exact(da["dtype"]) * 10
     # rows = upper (ket-like) indices, columns = lower (bra-like) indices: rho = Tr_rest |psi><psi|
@@ -1530,7 +1609,8 @@ def s_compress(draw, tier):
             "permute": draw(st.booleans()), "inplace": draw(st.booleans()), "normalize": draw(st.integers(0, 4)) == 0,
             "equalize": draw(st.sampled_from([False, False, False, True, 1.0])), "seed": draw(st.integers(0, 2**31 - 1)),
             "iters": draw(st.sampled_from([None, None, 5, 6])), "give_tags": draw(st.booleans()),
-            "over": draw(st.sampled_from([None, "struct", "struct", "1.5"]))}
+            "over": draw(st.sampled_from([None, "struct", "struct", "1.5"])),
+            "via": draw(st.sampled_from(["dispatcher", "dispatcher", "gate_with_mpo"]))}
 
 
 def compress_expectations(method, reverse, iters, L):
@@ -1593,10 +1673,19 @@ def run_compress(case):
     info = dict(method=method, input=inp["kind"], reverse=case["reverse"], capkind=case["cap"], cutoff=case["cutoff"],
                 canonize=case["canonize"], equalize=str(case["equalize"]), normalize=normalize)
     f0 = fingerprint(tn)
+    via = case.get("via", "dispatcher")
+    if via == "gate_with_mpo" and (inp["kind"] != "mpo-mps" or case["inplace"] or case["give_tags"]):
+        via = "dispatcher"
+    info["via"] = via
     # contract: methods that need an explicit bond dimension refuse None (ValueError; TypeError for srcmps);
     # 1-site fitting refuses a non-zero cutoff
     with rejecting(ValueError, TypeError, tag="refused:"):
-        r = tensor_network_1d_compress(tn, **kw)
+        if via == "dispatcher":
+            r = tensor_network_1d_compress(tn, **kw)
+        else:
+            x0, _, _ = chain(inp["x"])
+            A0, _, _ = chain(inp["layers"][0])
+            r = x0.gate_with_mpo(A0, **{k: v for k, v in kw.items() if k != "inplace"})
     if cap is None and method in NEED_CAP and not (method in M_FIT and cutoff != 0.0 and method == "fit"):
         pass  # (some of these accept None after all, e.g. 2-site fit with a cutoff: fine either way)
     if case["inplace"]:
@@ -1671,7 +1760,7 @@ def run_compress(case):
             phys = [ix for ix in t.inds if ix in r.outer_inds()]
             if list(t.inds[-len(phys):]) != phys or (0 < i < L - 1 and t.inds[0] not in bond_inds(r, i, i - 1)):
                 raise Violation("permute-arrays-order", site=i, **info)
-    cls = ["method=" + method, "input=" + inp["kind"], "cap=" + case["cap"], "cutoff=" + case["cutoff"], f"L={L}",
+    cls = ["method=" + method, "input=" + inp["kind"], "cap=" + case["cap"], "cutoff=" + case["cutoff"], f"L={L}", "via=" + via,
            "reverse" if case["reverse"] else "forward", "truncated" if truncated else "untruncated"] + \
           (["exact-checked"] if exact_expected else []) + (["normalize"] if normalize else []) + \
           (["equalize=" + str(case["equalize"])] if case["equalize"] is not False else []) + ([] if case["canonize"] else ["canonize=False"])
@@ -1690,6 +1779,86 @@ def run_registry(case):
         raise Violation("registry-drift", missing_1d=sorted(set(one) - set(M_1D)), missing_ag=sorted(set(ag) - set(M_AG)),
                         stale=sorted((set(M_1D) | set(M_AG)) - set(one) - set(ag)))
     return {"nt": True, "cls": ["registry"], "err": 0.0, "n": len(one) + len(ag), "nt_n": len(one) + len(ag)}
+
+
+@st.composite
+def s_fit_sum(draw, tier):
+    inp = draw(s_layers(kinds=("mps", "mps", "mpo", "mpo-mps"), Lmin=2, Lmax=5, max_bond=2))
+    n = draw(st.integers(2, 3))
+    others = []
+    for _ in range(n - 1):
+        o = {"kind": inp["kind"], "x": draw(partner(inp["x"], kinds=KINDS_WELL, max_bond=2)),
+             "layers": [draw(partner(inp["x"], op=True, kinds=KINDS_WELL, max_bond=2)) for _ in inp["layers"]]}
+        others.append(o)
+    return {"terms": [inp] + others, "extra": draw(st.integers(0, 2)), "reverse": draw(st.booleans()),
+            "iters": draw(st.sampled_from([None, 7, 8])), "bsz": draw(st.sampled_from(["auto", 1, 2])),
+            "guess": draw(st.sampled_from([None, None, "zipup", "rand"])), "seed": draw(st.integers(0, 2**31 - 1)),
+            "cap": draw(st.sampled_from(["exact", "exact", "below"])), "below": draw(st.integers(0, 10**6)),
+            "normalize": draw(st.integers(0, 4)) == 0}
+
+
+def run_fit_sum(case):
+    qtn = Q()
+    from quimb.tensor.tn1d.compress import tensor_network_1d_compress
+
+    terms = case["terms"]
+    built = [build_layers(t) for t in terms]
+    tns = [b[0] for b in built]
+    sites = built[0][1]
+    L = len(sites)
+    refs = [dense_any(tn, sites) for tn in tns]
+    ref = sum(refs)
+    nref = float(np.linalg.norm(ref))
+    mag = sum(float(np.linalg.norm(r)) for r in refs)
+    if nref <= 1e-6 * mag:
+        raise Reject("(nearly) cancelling sum")
+    sd = built[0][3]
+    rb = [min(prod(sd[: k + 1]), prod(sd[k + 1:])) for k in range(L - 1)]
+    need = max(min(sum(b[2][k] for b in built), rb[k]) for k in range(L - 1))
+    cap = need + case["extra"] if case["cap"] == "exact" else 1 + case["below"] % max(need - 1, 1)
+    kw = dict(method="fit", max_bond=cap, cutoff=0.0, sweep_reverse=case["reverse"], seed=case["seed"], bsz=case["bsz"],
+              normalize=case["normalize"])
+    if case["iters"] is not None:
+        kw["max_iterations"] = case["iters"]
+    if case["guess"] == "zipup":
+        kw["tn_fit"] = "zipup"
+    elif case["guess"] == "rand":
+        x = terms[0]["x"]
+        g = (qtn.MPO_rand if x["op"] else qtn.MPS_rand_state)(L, cap, phys_dim=x["phys"][0], seed=case["seed"] % 2**31, dtype=x["dtype"])
+        if len(set(x["phys"])) > 1:
+            raise Reject("random guess generators take one physical dimension")
+        kw["tn_fit"] = g
+    info = dict(nterms=len(tns), guess=str(case["guess"]), bsz=str(case["bsz"]), reverse=case["reverse"], capkind=case["cap"],
+                normalize=case["normalize"])
+    fps = [fingerprint(t) for t in tns]
+    with rejecting(ValueError, tag="refused:"):
+        r = tensor_network_1d_compress(tns, **kw)
+    for t, f in zip(tns, fps):
+        untouched(t, f, "input-mutated", **info)
+    check_one_per_site(r, L, **info)
+    bonds = out_bonds(r, L, **info)
+    if max(bonds + [1]) > cap:
+        raise Violation("bond-cap", got=max(bonds), cap=cap, **info)
+    got = dense_any(r, sites, **info)
+    want = ref / nref if case["normalize"] else ref
+    e = 0.0
+    if case["cap"] == "exact":
+        e = float(np.linalg.norm(got - want)) / (1.0 if case["normalize"] else mag)
+        if not e <= INV64:
+            raise Violation("not-exact", err=e, **info)
+    if case["normalize"] and abs(float(np.linalg.norm(got)) - 1) > 1e-8:
+        raise Violation("not-normalized", **info)
+    iters = 10 if case["iters"] is None else case["iters"]
+    centre_first = (iters % 2 == 0)
+    if case["reverse"]:
+        centre_first = not centre_first
+    if L >= 2:
+        d = canon_defects(r, L, 0 if centre_first else L - 1)
+        if not d <= 1e-7:
+            raise Violation("not-canonical", defect=d, **info)
+        e = max(e, d)
+    return {"nt": L >= 3, "cls": ["input=" + terms[0]["kind"], f"terms={len(tns)}", "guess=" + str(case["guess"]), "bsz=" + str(case["bsz"]),
+                                  "cap=" + case["cap"], f"L={L}"], "err": e}
 
 
 # ---------------------------------------------------------------------------
@@ -1930,6 +2099,8 @@ SUBCHECKS = [
              rule="MPS_computational/neel/ghz/w/zero/product/rand/rand_computational/COPY vs explicit vectors; rand: dtype, dims, norm, canonical form, seed reproducible; nt: L>=3"),
     SubCheck("named_mpo", run_named_mpo, s_named_mpo, examples=(200, 4000), shards=(1, 4),
              rule="MPO_identity(sites)/zeros/identity_like/zeros_like/product_operator/rand/rand_herm vs explicit matrices; nt: L>=3"),
+    SubCheck("named_ham", run_named_ham, s_named_ham, examples=(100, 2000), shards=(1, 2), needs_deps=False,
+             rule="MPO_ham_ising/heis/XY/XXZ (S=1/2, 1; scalar and per-axis couplings; open/periodic) == the docstring formula built with explicit krons of spin matrices; nt: L>=3"),
     SubCheck("add_sub", run_add, s_add, examples=(200, 4000), shards=(1, 4),
              rule="a+b, a-b, +=, -=, add_MPS/add_MPO(inplace, compress), tensor_network_ag_sum(negate) == dense sum; operands untouched; nt: L>=3 and site-dependent dims/bonds or cyclic"),
     SubCheck("scalar_mul", run_scalar, s_scalar, examples=(250, 5000), shards=(1, 4),
@@ -1948,6 +2119,8 @@ SUBCHECKS = [
              rule="the sampled method names equal the registered 1D + arbitrary-geometry dispatcher tables"),
     SubCheck("compress_1d", run_compress, s_compress, examples=(300, 6000), shards=(3, 8),
              rule="tensor_network_1d_compress x 17 1D methods + 6 forwarded AG names x input (MPS, MPO, MPO.MPS, MPO.MPO, MPO.MPO.MPS lazy) x sweep_reverse x canonize x cap (>=rank|below|None) x cutoff x normalize x equalize_norms x inplace: (i) exact when untruncated, (ii) cap, (iii) canonical centre by iso_defect, (iv) direct error bound; nt: L>=3 and (truncated or >=2 layers or site-dependent dims)"),
+    SubCheck("compress_fit_sum", run_fit_sum, s_fit_sum, examples=(120, 2500), shards=(1, 4),
+             rule="method='fit' on a sequence of 2-3 networks (documented: compressed as their sum) x guess (random, 'zipup', explicit) x bsz x sweep direction: equals the dense sum when the cap covers the summed ranks, cap, canonical centre by last sweep, inputs untouched; nt: L>=3"),
     SubCheck("direct_bound", run_direct, s_direct, examples=(250, 5000), shards=(2, 6),
              rule="method='direct' (dispatcher, function, gate_with_mpo) with caps below the rank and/or cutoffs in all 6 cutoff modes, both sweep directions, input scales 1e-6..1e5: distance <= sqrt(sum of discarded squared singular values of the input's unfoldings at the returned bond sizes)*(1+1e-9), cap, canonical form; nt: truncation happened"),
     SubCheck("compress_flat", run_flat, s_flat, examples=(250, 5000), shards=(2, 6),
